@@ -292,6 +292,9 @@ class CursorAwareWindow(BaseWindow, ContextManager["CursorAwareWindow"]):
         self.cbreak.__enter__()
         self.top_usable_row, _ = self.get_cursor_position()
         self._orig_top_usable_row = self.top_usable_row
+        # what an earlier context of this window drew was erased when it was left
+        self._last_lines_by_row = {}
+        self._last_cursor_row = None
         logger.debug("initial top_usable_row: %d" % self.top_usable_row)
         return super().__enter__()
 
